@@ -430,7 +430,12 @@ class DecodePath:
             return Stub(new=True, name=_to_py(o.attrs.get('name')) if isinstance(o.attrs.get('name'), A.AInt) else None, manufacturer_code=None)
         return o
 
-    def feed(self, pgn, mid, src=7, name_int=12345):
+    def _frames_reversed(self):
+        """_decode receives the frame bytes last wire byte first (every reader reverses them): decided by the reassembly rules' own probe"""
+        from . import rules_reasm as RR
+        return getattr(RR, 'FRAMES_REVERSED', True)
+
+    def feed(self, pgn, mid, src=7, name_int=12345, fast=False):
         A = self.A
         program = self.program
         dec = self.dec
@@ -451,7 +456,7 @@ class DecodePath:
             if isinstance(f, ast.Name) and env.get(f.id) is FUNC:
                 return msg
             if isinstance(f, ast.Attribute) and f.attr == '_isFastPGN':
-                return False
+                return bool(fast)
             if name in ('datetime.now', 'datetime.utcnow', 'time.time', 'time.monotonic'):
                 return A.AInt(10 ** 9 if now_after_window else 0)
             if name == 'timedelta':
@@ -483,6 +488,24 @@ class DecodePath:
                     return None
                 if isinstance(recv, A.AObj) and recv.attrs.get('dump_file') and f.attr == 'flush':
                     return None
+            if isinstance(f, ast.Attribute) and isinstance(f.value, ast.Name) and env.get(f.value.id) is msg and f.attr not in msg.attrs:
+                # another method of the message: its body is followed (add_data inside it comes back through this hook); unknown ones stop the run
+                try:
+                    meth = program.fn('message', f"NMEA2000Message.{f.attr}")
+                except Exception:
+                    meth = None
+                if meth is None:
+                    raise A.Unknown(f"message method {f.attr} not found")
+                vals = [it.expr(a, env) for a in call.args]
+                kw = {k.arg: it.expr(k.value, env) for k in call.keywords}
+                had = 'add_data' in st
+                before_ = dict(msg.attrs)
+                r_ = it.call_function(meth, [msg] + vals, kw, module=A.ModuleEnv(program.mod('message').tree))
+                if not had and 'add_data' not in st and msg.attrs.get('source') is not before_.get('source') and 'source' in msg.attrs:
+                    # the method filed the reception data itself: what it attached is what the message now carries
+                    st['attached'] = msg.attrs.get('source_iso_name')
+                    st['add_data'] = {k2: msg.attrs[k1] for k1, k2 in (('source', 'src'), ('destination', 'dest'), ('priority', 'priority'), ('source_iso_name', 'source_iso_name')) if k1 in msg.attrs}
+                return r_
             return NotImplemented
         it = A.Interp(hook=hook, skip=self.is_logger, methods=self.methods, module=self.menv, classes=self.classes)
         args = []
@@ -493,6 +516,10 @@ class DecodePath:
             elif p_ in ('source_id', 'src'): args.append(A.AInt(src))
             elif p_ in ('destination_id', 'dest'): args.append(A.AInt(255))
             elif p_ == 'priority': args.append(A.AInt(3))
+            elif p_ == 'can_data' and fast:
+                # a fast-packet message that is complete in its first frame: sequence 0 / frame 0, four payload bytes, padding
+                wire_ = fast if isinstance(fast, tuple) else (0x00, 0x04, 1, 2, 3, 4, 0xff, 0xff)
+                args.append(A.ABytes([('c', b) for b in wire_][::-1] if self._frames_reversed() else [('c', b) for b in wire_]))
             elif p_ == 'can_data': args.append(A.ABytes([('c', b) for b in int(name_int).to_bytes(8, 'big')]))
             elif p_ == 'already_combined': args.append(False)
             else: args.append(A.AOpaque(p_))
